@@ -14,6 +14,8 @@ CONSTANTS
   MaxOld = 3
   Transports <- TrBoth
   ScmpTypes <- ScmpAll
+  HdrStates <- HdrAll
+  HdrPct = 25
   Exhaustive = FALSE
   Biases <- BiasAll
   TickPct = 12
